@@ -2,5 +2,5 @@
 # setup_cmd: build the checker offline from files on disk (warms the build cache so later rebuilds are incremental).
 set -e
 mkdir -p /verif/.work/bin /verif/.work/tmp /verif/evidence /verif/replays
-/verif/build.sh
+VERIF_BUILD_RACE=1 /verif/build.sh
 /verif/.work/bin/zmc list
